@@ -249,6 +249,7 @@ func main() {
 	add("suffix", r.N(60, 2400), w.unitSuffix)
 	add("rawrsa", max(r.N(400, 16000), 2*nPairs), w.unitRaw)
 	add("rrsig", r.N(900, 36000), w.unitRRSIG)
+	add("rrsigcut", r.N(64, 2560), w.unitRRSIGCut)
 	add("signed", r.N(3000, 150000), w.unitSigned)
 	add("keytag", r.N(500, 24000), w.unitKeyTag)
 	add("ds", r.N(512, 24000), w.unitDS)
@@ -397,6 +398,17 @@ func requirements(r *vlib.Run) {
 	r.Require("vds_stricter_exempt", int64(r.N(100, 1000)))
 	r.Require("rrsig_agree_accept", int64(r.N(200, 2000)))
 	r.Require("rrsig_agree_reject", int64(r.N(200, 2000)))
+	// every structural shape of RSA key material reached a verifier through a bound RRSIG,
+	// below verifySignature/cryptoVerify and through the exported VerifyRRSIG
+	for _, sh := range requiredRSAKeyShapes {
+		r.Require("rsa_key_shape_bound/"+sh, int64(r.N(20, 200)))
+		r.Require("rrsig_rsa_key_shape_bound/"+sh, int64(r.N(5, 50)))
+	}
+	for _, fam := range []string{"p256", "p384", "ed25519"} {
+		for _, sh := range []string{"empty", "short", "exact", "long"} {
+			r.Require("fixed_key_len_bound/"+fam+"/"+sh, int64(r.N(20, 200)))
+		}
+	}
 	// every mutation family observed
 	for _, m := range requiredMutations {
 		r.Require("mut/"+m, 1)
@@ -431,6 +443,8 @@ var requiredMutations = []string{
 	"b64-plain", "b64-wrap64-lf", "b64-wrap76-crlf", "b64-wrap-random", "b64-padding-midstream", "b64-pad-char-inside", "b64-foreign-char",
 	"b64-truncated", "b64-extra-padding", "b64-no-padding", "b64-trailing-bits", "b64-break-inside-group-at-chunk-edge", "b64-urlsafe", "b64-padding-at-chunk-edge",
 	"ds-direct-digest-of-unpackable-key",
+	"key-cut-tag-follows", "key-extended-tag-follows", "key-rsa-explen-field-tag-follows", "key-rsa-exponent-only-tag-follows",
+	"rrsig-only-altered-key", "rrsig-altered-key-then-good-key",
 }
 
 var _ = rand.New
